@@ -2,7 +2,9 @@
 from __future__ import annotations
 
 import dets
-from common import Outcome, cmp_tokens, run_driver
+from common import Outcome, cmp_tokens, h2f, run_driver
+
+SCALE_PROPORTIONAL = ("CUSUM", "PageHinkley", "GeometricMovingAverage", "ADWIN")
 
 
 def run_ops(cls: str, params: dict, ops: list[tuple], inst: str = "a", callbacks=None, config=None) -> dets.Runner:
@@ -31,6 +33,12 @@ def compare_batch(out: Outcome, runners: list[dets.Runner], rtol: float = 1e-9, 
     for r, (a, b) in zip(runners, spans):
         ok_steps = 0
         r.mismatch_at = r.tie_at = None
+        # statistics of the CUSUM family and of ADWIN are proportional to the data (and to delta): compare them relative to THAT scale
+        floor = 1.0
+        if r.cls in SCALE_PROPORTIONAL:
+            vals = [abs(h2f(l.split(" ")[2])) for l in r.lines if l.startswith("u") and len(l.split(" ")) > 2]
+            fp = dets.full_params(r.cls, r.params)
+            floor = min(1.0, max([1e-300, abs(float(fp.get("delta", 0.0))) if r.cls != "ADWIN" else 0.0] + vals))
         for k, (impl, modl) in enumerate(zip(r.obs, res[a:b])):
             if impl is None:          # an update after which nothing was read (see Runner.update(observe=False))
                 ok_steps += 1
@@ -43,7 +51,7 @@ def compare_batch(out: Outcome, runners: list[dets.Runner], rtol: float = 1e-9, 
                 out.excluded_near_tie += 1
                 out.count("traces_truncated_at_tie")
                 break
-            same, why = cmp_tokens(impl, toks, rtol)
+            same, why = cmp_tokens(impl, toks, rtol, floor)
             if not same:
                 r.mismatch_at = k
                 out.mismatch(f"{label}{r.cls}: model and implementation differ at operation {k}: {why}",
